@@ -117,39 +117,47 @@ def checkRegular (f : Field) : Except Err Unit :=
   else if f.name == sTe && f.value != sTrailers then .error .invalidTE
   else .ok ()
 
+/-- the `switch h.Name` over the pseudo-header names: the updated header and whether the field
+is a response pseudo-header. -/
+def pseudoSet (h : Header) (f : Field) : Except Err (Header × Bool) :=
+  if f.name == pPath then .ok ({ h with path := f.value }, false)
+  else if f.name == pMethod then .ok ({ h with method := f.value }, false)
+  else if f.name == pAuthority then .ok ({ h with authority := f.value }, false)
+  else if f.name == pProtocol then .ok ({ h with protocol := f.value }, false)
+  else if f.name == pScheme then .ok ({ h with scheme := f.value }, false)
+  else if f.name == pStatus then
+    if isStatus3 f.value then .ok ({ h with status := f.value }, true)
+    else .error .invalidStatus
+  else .error .unknownPseudo
+
+/-- the `if h.IsPseudo()` branch of the loop body. -/
+def stepPseudo (isRequest : Bool) (a : Acc) (f : Field) : Except Err Acc :=
+  if a.readFirstRegular then .error .pseudoAfterRegular
+  else match pseudoSet a.hdr f with
+    | .error e => .error e
+    | .ok (h, isResp) =>
+      if isRequest == isResp then .error .wrongDirectionPseudo
+      else .ok { a with hdr := h }
+
+/-- the `else` branch (regular field) of the loop body. -/
+def stepRegular (a : Acc) (f : Field) : Except Err Acc :=
+  match checkRegular f with
+  | .error e => .error e
+  | .ok () =>
+    if f.name == sContentLength then
+      if !a.readContentLength then
+        .ok { a with readFirstRegular := true, readContentLength := true, contentLengthStr := f.value }
+      else if a.contentLengthStr != f.value then .error .contradictingContentLength
+      else .ok { a with readFirstRegular := true }
+    else .ok { a with readFirstRegular := true,
+                      hdr := { a.hdr with headers := hdrAdd a.hdr.headers f.name f.value } }
+
 /-- the body of the `for _, h := range headers` loop of `parseHeaders`. -/
 def step (isRequest : Bool) (a : Acc) (f : Field) : Except Err Acc :=
   if hasUpper f.name then .error .notLowerCase
   else if !validValue f.value then .error .invalidValue
-  else if f.isPseudo then
-    if a.readFirstRegular then .error .pseudoAfterRegular
-    else
-      let set : Except Err (Header × Bool) :=
-        if f.name == pPath then .ok ({ a.hdr with path := f.value }, false)
-        else if f.name == pMethod then .ok ({ a.hdr with method := f.value }, false)
-        else if f.name == pAuthority then .ok ({ a.hdr with authority := f.value }, false)
-        else if f.name == pProtocol then .ok ({ a.hdr with protocol := f.value }, false)
-        else if f.name == pScheme then .ok ({ a.hdr with scheme := f.value }, false)
-        else if f.name == pStatus then
-          if isStatus3 f.value then .ok ({ a.hdr with status := f.value }, true)
-          else .error .invalidStatus
-        else .error .unknownPseudo
-      match set with
-      | .error e => .error e
-      | .ok (h, isResp) =>
-        if isRequest == isResp then .error .wrongDirectionPseudo
-        else .ok { a with hdr := h }
-  else
-    match checkRegular f with
-    | .error e => .error e
-    | .ok () =>
-      let a := { a with readFirstRegular := true }
-      if f.name == sContentLength then
-        if !a.readContentLength then
-          .ok { a with readContentLength := true, contentLengthStr := f.value }
-        else if a.contentLengthStr != f.value then .error .contradictingContentLength
-        else .ok a
-      else .ok { a with hdr := { a.hdr with headers := hdrAdd a.hdr.headers f.name f.value } }
+  else if f.isPseudo then stepPseudo isRequest a f
+  else stepRegular a f
 
 def loop (isRequest : Bool) : Acc → List Field → Except Err Acc
   | a, [] => .ok a
